@@ -1,4 +1,217 @@
-use crate::fnfam::Out;
-use crate::rng::Rng;
-pub fn eval(_a: &[&str]) -> String { unimplemented!() }
-pub fn generate(_o: &mut Out, _r: &mut Rng, _n: u64) {}
+//! `text` family: Display / FromStr / serde-JSON / width conversions of Uint256 and Decimal256.
+//! Strings travel hex-encoded (`h` + hex bytes, `h` alone for the empty string).
+use crate::fnfam::{guarded, Out};
+use crate::rng::*;
+use bigint::U256;
+use bignumber::{Decimal256, Uint256};
+use cosmwasm_std::Decimal;
+use std::convert::TryFrom;
+use std::str::FromStr;
+
+pub fn hex(s: &str) -> String {
+    let mut o = String::from("h");
+    for b in s.bytes() {
+        o.push_str(&format!("{:02x}", b));
+    }
+    o
+}
+pub fn unhex(h: &str) -> String {
+    let h = &h[1..];
+    let bytes: Vec<u8> = (0..h.len() / 2).map(|i| u8::from_str_radix(&h[2 * i..2 * i + 2], 16).unwrap()).collect();
+    String::from_utf8(bytes).unwrap()
+}
+fn u256(s: &str) -> U256 {
+    U256::from_dec_str(s).unwrap()
+}
+
+pub fn eval(a: &[&str]) -> String {
+    let op = a[0];
+    guarded(|| match op {
+        "dec_to_string" => format!("ok {}", hex(&Decimal256(u256(a[1])).to_string())),
+        "uint_to_string" => format!("ok {}", hex(&Uint256(u256(a[1])).to_string())),
+        "uint_into_string" => {
+            let s: String = Uint256(u256(a[1])).into();
+            format!("ok {}", hex(&s))
+        }
+        "dec_from_str" => match Decimal256::from_str(&unhex(a[1])) {
+            Ok(v) => format!("ok {}", v.0),
+            Err(_) => "fail".into(),
+        },
+        "uint_from_str" => match Uint256::from_str(&unhex(a[1])) {
+            Ok(v) => format!("ok {}", v.0),
+            Err(_) => "fail".into(),
+        },
+        "uint_try_from" => match Uint256::try_from(unhex(a[1]).as_str()) {
+            Ok(v) => format!("ok {}", v.0),
+            Err(_) => "fail".into(),
+        },
+        "dec_rt" => {
+            let s = Decimal256(u256(a[1])).to_string();
+            match Decimal256::from_str(&s) {
+                Ok(v) => format!("ok {}", v.0),
+                Err(_) => "fail".into(),
+            }
+        }
+        "uint_rt" => {
+            let s = Uint256(u256(a[1])).to_string();
+            match Uint256::from_str(&s) {
+                Ok(v) => format!("ok {}", v.0),
+                Err(_) => "fail".into(),
+            }
+        }
+        "dec_json_rt" => {
+            let j = serde_json_wasm::to_string(&Decimal256(u256(a[1]))).unwrap();
+            match serde_json_wasm::from_str::<Decimal256>(&j) {
+                Ok(v) => format!("ok {} {}", hex(&j), v.0),
+                Err(_) => "fail".into(),
+            }
+        }
+        "uint_json_rt" => {
+            let j = serde_json_wasm::to_string(&Uint256(u256(a[1]))).unwrap();
+            match serde_json_wasm::from_str::<Uint256>(&j) {
+                Ok(v) => format!("ok {} {}", hex(&j), v.0),
+                Err(_) => "fail".into(),
+            }
+        }
+        "dec_json_dec" => match serde_json_wasm::from_str::<Decimal256>(&unhex(a[1])) {
+            Ok(v) => format!("ok {}", v.0),
+            Err(_) => "fail".into(),
+        },
+        "uint_json_dec" => match serde_json_wasm::from_str::<Uint256>(&unhex(a[1])) {
+            Ok(v) => format!("ok {}", v.0),
+            Err(_) => "fail".into(),
+        },
+        "u128_rt" => {
+            let w: u128 = a[1].parse().unwrap();
+            let back: u128 = Uint256::from(w).into();
+            format!("ok {back}")
+        }
+        "std_rt" => {
+            let w: u128 = a[1].parse().unwrap();
+            let d: Decimal256 = Decimal::raw(w).into();
+            let back: Decimal = d.into();
+            format!("ok {} {}", d.0, back.atomics())
+        }
+        "dec_to_std" => {
+            let d: Decimal = Decimal256(u256(a[1])).into();
+            format!("ok {}", d.atomics())
+        }
+        "uint_to_u128" => {
+            let w: u128 = Uint256(u256(a[1])).into();
+            format!("ok {w}")
+        }
+        _ => panic!("unknown text op {op}"),
+    })
+}
+
+fn s<T: ToString>(x: T) -> String {
+    x.to_string()
+}
+
+fn gen_value(r: &mut Rng) -> U256 {
+    let e = U256::from(E18 as u64);
+    match r.below(8) {
+        0 => {
+            // whole with fraction having leading / trailing zeros
+            let whole = gen_u256(r) % (U256::MAX / e);
+            let j = r.range(0, 17) as u32;
+            let k = r.below(10u64.pow(18 - j)) ;
+            whole * e + U256::from(k) * pow10_256(j)
+        }
+        1 => U256::from(r.below(E18 as u64)),                 // pure fraction
+        2 => (gen_u256(r) % (U256::MAX / e)) * e,             // pure whole
+        3 => U256::MAX - U256::from(r.below(1000)),
+        _ => gen_u256(r),
+    }
+}
+
+fn enumerate(alpha: &[u8], len: usize, f: &mut dyn FnMut(&str)) {
+    let mut idx = vec![0usize; len];
+    loop {
+        let st: String = idx.iter().map(|&i| alpha[i] as char).collect();
+        f(&st);
+        let mut p = len;
+        loop {
+            if p == 0 {
+                return;
+            }
+            p -= 1;
+            idx[p] += 1;
+            if idx[p] < alpha.len() {
+                break;
+            }
+            idx[p] = 0;
+        }
+    }
+}
+
+pub fn generate(o: &mut Out, r: &mut Rng, n: u64) {
+    // 1. all strings over a small alphabet, exhaustively (length ≤ 5 quick, ≤ 7 when n is large)
+    let alpha = [b'0', b'1', b'5', b'9', b'.', b'x', b'-'];
+    let maxlen = if n >= 1_000_000 { 7 } else { 5 };
+    for len in 0..=maxlen {
+        enumerate(&alpha, len, &mut |st| {
+            o.case("text", vec!["dec_from_str".into(), hex(st)]);
+            if len <= 4 {
+                o.case("text", vec!["uint_from_str".into(), hex(st)]);
+                o.case("text", vec!["uint_try_from".into(), hex(st)]);
+                o.case("text", vec!["dec_json_dec".into(), hex(&format!("\"{st}\""))]);
+                o.case("text", vec!["uint_json_dec".into(), hex(&format!("\"{st}\""))]);
+            }
+        });
+    }
+    for j in ["", "\"", "\"\"", "1", "\"1", "1\"", "null", "\"1\" ", " \"1\"", "\"1.5\"", "1.5", "[\"1\"]"] {
+        o.case("text", vec!["dec_json_dec".into(), hex(j)]);
+        o.case("text", vec!["uint_json_dec".into(), hex(j)]);
+    }
+    // 2. values
+    for i in 0..n {
+        let v = gen_value(r);
+        for op in ["dec_to_string", "dec_rt", "dec_json_rt"] {
+            o.case("text", vec![op.into(), s(v)]);
+        }
+        if i % 2 == 0 {
+            let v = gen_u256(r);
+            for op in ["uint_to_string", "uint_into_string", "uint_rt", "uint_json_rt", "uint_to_u128", "dec_to_std"] {
+                o.case("text", vec![op.into(), s(v)]);
+            }
+            let w = gen_u128(r);
+            o.case("text", vec!["u128_rt".into(), s(w)]);
+            o.case("text", vec!["std_rt".into(), s(w)]);
+            let f = U256::from_dec_str(&w.to_string()).unwrap();
+            o.case("text", vec!["uint_to_u128".into(), s(f)]);
+            o.case("text", vec!["dec_to_std".into(), s(f)]);
+        }
+        // 3. structured numerals: long wholes around 2^256 and 2^256/10^18, 17/18/19 fractional digits
+        if i % 3 == 0 {
+            let whole = match r.below(5) {
+                0 => U256::MAX.to_string(),
+                1 => {
+                    // 2^256 and a bit above: increment the decimal string of MAX
+                    let mut d: Vec<u8> = U256::MAX.to_string().into_bytes();
+                    let l = d.len();
+                    d[l - 1] = b'0' + ((d[l - 1] - b'0' + 1 + r.below(3) as u8) % 10);
+                    if r.chance(1, 2) { d[l - 2] = b'9'; }
+                    String::from_utf8(d).unwrap()
+                }
+                2 => ((U256::MAX / U256::from(E18 as u64)) + U256::from(r.below(3)) - U256::one()).to_string(),
+                3 => format!("{}{}", "0".repeat(r.range(0, 5) as usize), gen_u256(r)),
+                _ => {
+                    let len = r.range(76, 80) as usize;
+                    (0..len).map(|_| (b'0' + r.below(10) as u8) as char).collect()
+                }
+            };
+            let flen = *r.pick(&[0usize, 1, 2, 17, 18, 19, 20]);
+            let frac: String = (0..flen).map(|_| (b'0' + if r.chance(1, 3) { 0 } else { r.below(10) as u8 }) as char).collect();
+            let st = match r.below(4) {
+                0 => whole.clone(),
+                1 => format!("{whole}.{frac}"),
+                2 => format!("{}.{frac}", r.below(1000)),
+                _ => format!("{}.{frac}.", r.below(10)),
+            };
+            o.case("text", vec!["dec_from_str".into(), hex(&st)]);
+            o.case("text", vec!["uint_from_str".into(), hex(&whole)]);
+            o.case("text", vec!["dec_json_dec".into(), hex(&format!("\"{st}\""))]);
+        }
+    }
+}
